@@ -28,6 +28,9 @@ def judge(run, trace_path, label):
         else:
             key = "collpath:%s:%s:%s:%s" % (ev["fn"], ev["kind"], "actor-box" if ev["c"] in ("inbox", "outbox", "followers", "following", "liked") else "object-coll", why)
             what = "%s.%s(%s id=%r, explicit %s=%r) = %r" % (ev["c"], ev["fn"], ev["kind"], ev.get("ids"), ev["explicit"]["k"], ev.get("exps"), ev["res"].get("s"))
+        if ev["ev"] == "addto":
+            run.note(key, what)          # AddTo is specified in CollPathTrace.tla but is not part of C15's statement
+            continue
         run.observe(key, what + " (" + label + ")", dict(event=ev))
     return len(events)
 
